@@ -95,7 +95,7 @@ def main():
 	target = VERIF / 'seeded' / args.name
 	target.mkdir(parents=True, exist_ok=True)
 	for item in ('patch.diff', 'demo.py', 'notes.md'):
-		if (Path(args.source) / item).exists():
+		if (Path(args.source) / item).exists() and (Path(args.source) / item).resolve() != (target / item).resolve():
 			shutil.copy(Path(args.source) / item, target / item)
 	meta['breaks_property'] = args.id
 	meta['needs_to_manifest'] = args.needs or '(see notes.md)'
